@@ -95,3 +95,24 @@ m("parser_default_not_set", PA, "                kwargs.setdefault(\"default\", 
 SV = "control/server.py"
 m("server_no_unlink", SV, "        self._socket_path.unlink()\n", "        pass\n", ["C19"])
 m("server_no_writer_close", SV, "        finally:\n            # Without this the server can not finish closing.\n            writer.close()\n", "        finally:\n            pass\n", ["C19"], "reverts the writer.close fix (only applies once that fix exists)")
+
+# --- reverts / weakenings of the later repairs (D11 - D17): the checks must protect them
+m("revert_D11_dotted_path", "internals/helpers.py",
+  "        module_name += f\".{name}\"\n        try:\n            found = getattr(found, name)\n        except AttributeError:\n            import_module(module_name)\n",
+  "        try:\n            found = getattr(found, name)\n        except AttributeError:\n            module_name += f\".{name}\"\n            import_module(module_name)\n",
+  ["C17"], "the module prefix only grows when an attribute lookup fails again")
+m("revert_D13_func_name", POOL, "                    getattr(func, \"__name__\", repr(func)),\n", "                    func.__name__,\n", ["C04", "C08"], "func.__name__ in the first log handler again (partial / callable object + call-time raise)")
+m("revert_D14_mark_after_create", POOL,
+  "            self._tasks_unstarted.add(task_id)\n            self._tasks_running[task_id] = task = create_task(",
+  "            self._tasks_running[task_id] = task = create_task(",
+  ["C02", "C08"], "tasks are never marked as not yet started: a cancellation before the first step is a real Task.cancel() again")
+m("revert_D15_first_cancelled_meta_ends_wait", POOL,
+  "        results = await gather(\n            *self._meta_tasks_cancelled, return_exceptions=True\n        )\n        if not return_exceptions:\n            for result in results:\n                if isinstance(result, Exception):\n                    raise result\n",
+  "        try:\n            await gather(*self._meta_tasks_cancelled, return_exceptions=return_exceptions)\n        except CancelledError:\n            pass\n",
+  ["C08"], "gather_and_close stops waiting for the cancelled spawners at the first one that is done")
+m("revert_D16_no_first_step", SV, "        try:\n            await sleep(0)\n        except CancelledError:\n            task.cancel()\n            raise\n        return task\n", "        return task\n",
+  ["C19"], "serve_forever() returns the task before it has taken its first step")
+m("revert_D17_not_superseded_early", SV, "        self._server = None\n        self._server = await self._get_server_instance(", "        self._server = await self._get_server_instance(",
+  ["C19"], "an earlier serving task is only superseded once the new server instance exists")
+m("revert_D12_final_callback_always", SV, "            if self._server is server:\n                self._final_callback()\n", "            self._final_callback()\n",
+  ["C19"], "a superseded serving task runs the final callback again")
